@@ -16,8 +16,8 @@ from datetime import date, datetime, time, timedelta, timezone
 BOUND = {
     "quick": "48 RFC property names x permitted value kinds (catalogue of 40 values) x 3 parameter shapes in 3 component nestings; "
              "all catalogue values / homogeneous lists of <= 3 / periods through the constructor contracts; 300 seeded add sequences "
-             "of <= 4 calls; zoneinfo provider",
-    "thorough": "same under both providers, 2000 seeded add sequences",
+             "of <= 4 calls; both providers",
+    "thorough": "same with 2000 seeded add sequences",
 }
 HERE = os.path.dirname(os.path.abspath(__file__))
 
@@ -508,7 +508,7 @@ def run(b, tier, seed, findings, known_seen):
     rnd = random.Random(seed)
     total = 0
     fails = []
-    for prov in (["zoneinfo"] if tier == "quick" else ["zoneinfo", "pytz"]):
+    for prov in ("zoneinfo", "pytz"):
         icalendar.timezone.tzp.use(prov)
         try:
             f1 = check_vddd(prov)
